@@ -376,6 +376,15 @@ class HistogramBase(abc.ABC):
         if new_dtype != self.dtype:
             self.set_dtype(new_dtype)
 
+    def _as_contents(self, array: np.ndarray) -> np.ndarray:
+        """Assigned bin contents in the content type, which is promoted to hold them if necessary."""
+        dtype = getattr(self, "_dtype", None)
+        if dtype is None or array.dtype == dtype:
+            return array
+        if array.dtype.kind in "iuf":
+            self._coerce_dtype(array.dtype)
+        return array.astype(self._dtype)
+
     @property
     def bin_count(self) -> int:
         """Total number of bins."""
@@ -397,7 +406,7 @@ class HistogramBase(abc.ABC):
                 warnings.warn("Negative frequencies in the histogram.")
             else:
                 raise ValueError("Cannot have negative frequencies.")
-        self._frequencies = frequencies
+        self._frequencies = self._as_contents(frequencies)
 
     @property
     def densities(self) -> np.ndarray:
@@ -448,7 +457,7 @@ class HistogramBase(abc.ABC):
             raise ValueError("Square errors must have same dimension as bins.")
         if np.any(array < 0):
             raise ValueError("Cannot have negative square errors.")
-        self._errors2 = array
+        self._errors2 = self._as_contents(array)
 
     @property
     def errors(self) -> np.ndarray:
